@@ -102,9 +102,10 @@ class NTPClient(Service, discriminator="ntp-client"):
         if not isinstance(payload, NTPPacket):
             self.sys_log.warning(f"{self.name}: Failed to parse NTP update")
             return False
-        if payload.ntp_reply.ntp_datetime:
+        if payload.ntp_reply and payload.ntp_reply.ntp_datetime:
             self.time = payload.ntp_reply.ntp_datetime
             return True
+        return False
 
     def request_time(self) -> None:
         """Send request to ntp_server."""
